@@ -19,7 +19,7 @@ ASSUMPTIONS = [
   "renderer is free to swap the sides, so pymtl3 never sees that direction",
   "endpoint names follow repr(signal): s.<inst path>.<signal><.field|[i]>*<[lo:hi]>",
 ]
-QUICK_S = 80
+QUICK_S = 240
 THOROUGH_S = 1200
 
 
